@@ -179,6 +179,9 @@ static int tabchange_after = -1;    /* after that many NODETAB rows (overall) an
 static int tabchange_done = 0;
 static uint8_t tab_version = 1;
 static uint8_t policy[128];         /* 0 answer, 1 alt/NA, 2 never, 3 duplicate */
+/* spontaneous traffic tied to the downlink: when the n-th message of a type is seen, a prepared uplink packet is delivered (before the answer) */
+typedef struct { uint8_t type; int nth, seen, len, fired; uint8_t payload[300]; } inject_t;
+static inject_t injects[32]; static int ninject = 0;
 static long txm_index = 0;
 
 NOINST void bus_reset(void) {
@@ -214,7 +217,14 @@ NOINST static int hexbytes(const char *s, uint8_t *out, size_t max) {
 NOINST int bus_config_line(int argc, char **argv) {
 	if (argc < 2) return -1;
 	if (!strcmp(argv[1], "mode") && argc >= 3) { bus_answer = !strcmp(argv[2], "answer"); return 0; }
-	if (!strcmp(argv[1], "clear")) { nnodes = 0; memset(policy, 0, sizeof policy); bus_cap = 64; feat_echo_diff = 0; tabchange_after = -1; tabchange_done = 0; bus_answer = 0; return 0; }
+	if (!strcmp(argv[1], "inject") && argc >= 5) {
+		if (ninject >= 32) return -1;
+		inject_t *j = &injects[ninject]; memset(j, 0, sizeof *j);
+		j->type = (uint8_t)strtoul(argv[2], NULL, 16); j->nth = atoi(argv[3]);
+		j->len = hexbytes(argv[4], j->payload, sizeof j->payload); if (j->len < 0) return -1;
+		ninject++; return 0;
+	}
+	if (!strcmp(argv[1], "clear")) { ninject = 0; nnodes = 0; memset(policy, 0, sizeof policy); bus_cap = 64; feat_echo_diff = 0; tabchange_after = -1; tabchange_done = 0; bus_answer = 0; return 0; }
 	if (!strcmp(argv[1], "cap") && argc >= 3) { bus_cap = atoi(argv[2]); return 0; }
 	if (!strcmp(argv[1], "brackets") && argc >= 3) { log_rx_brackets = atoi(argv[2]); return 0; }
 	if (!strcmp(argv[1], "featecho") && argc >= 3) { feat_echo_diff = !strcmp(argv[2], "diff"); return 0; }
@@ -378,6 +388,12 @@ NOINST static void decode_packet_locked(void) {
 		char hx[600]; hexstr(hx, data, dl > 290 ? 290 : dl);
 		long idx = ++txm_index; bus_tx_msgs++;
 		ev("\"e\":\"txm\",\"i\":%ld,\"addr\":[%u,%u,%u],\"seq\":%u,\"type\":%u,\"data\":\"%s\"", idx, addr[0], addr[1], addr[2], seq, type, hx);
+		for (int q = 0; q < ninject; q++) if (!injects[q].fired && injects[q].type == type && ++injects[q].seen == injects[q].nth) {
+			injects[q].fired = 1;
+			long pid = push_packet_locked(injects[q].payload, (size_t)injects[q].len);
+			char hx2[620]; hexstr(hx2, injects[q].payload, (size_t)injects[q].len);
+			ev("\"e\":\"up\",\"pkt\":%ld,\"np\":0,\"injected\":1,\"payload\":\"%s\"", pid, hx2);
+		}
 		if (bus_answer) answer(idx, addr, type, data, dl);
 		i += ml + 1;
 	}
